@@ -13,7 +13,7 @@ ROOT = os.path.dirname(HERE)
 PARAMS = {  # property -> (quick: len, cuts), (thorough: len, cuts)
     "C01": ((4, 1), (5, 2)),
     "C02": ((4, 1), (5, 2)),
-    "C03": ((0, 1), (0, 1)),
+    "C03": ((5, 1), (6, 1)),
     "C04": ((4, 0), (5, 0)),
     "C06": ((4, 1), (5, 1)),
     "C07": ((3, 3), (4, 3)),
